@@ -387,9 +387,9 @@ def _game_family(name, shard):
             _FAMILIES[key] = [U.U_F_build(c, shard.get("focus_reward", 1))[0] for c in U.U_F_cases(shard["max_deg"])]
         elif name == "U-D":
             _FAMILIES[key] = U.U_D_games()
-        elif name in ("U-E", "U-C", "U-L", "U-R", "U-P2", "U-N", "U-W", "U-Z"):
+        elif name in ("U-E", "U-C", "U-L", "U-R", "U-P2", "U-N", "U-W", "U-Z", "U-G"):
             _FAMILIES[key] = {"U-E": U.U_E_games, "U-C": U.U_C_games, "U-L": U.U_L_games, "U-R": U.U_R_games,
-                              "U-P2": U.U_P2_games, "U-N": U.U_N_games, "U-W": U.U_W_games, "U-Z": U.U_Z_games}[name]()
+                              "U-P2": U.U_P2_games, "U-N": U.U_N_games, "U-W": U.U_W_games, "U-Z": U.U_Z_games, "U-G": U.U_G_games}[name]()
         elif name == "U-X":
             from .inputs import small_example_games
             _FAMILIES[key] = small_example_games()
